@@ -4,8 +4,11 @@
 //! case line: {"mode": "single"|"multi", "threads": [[msg…]…], "raw": [[LogThreadMsg as serde JSON…]…],
 //!             "impl": {"logs": [msg…], "cwes": [msg…]} | "panic"}
 //!   msg: {"t":"L","id":…,"a":null|address} | {"t":"C","id":…,"as":[addresses]} | {"t":"T"}
-//! `id` is a digest of every field of the message other than the addresses, and contains the
-//! (thread, sequence number) of the message, so ids are unique within a case.
+//! `id` is a digest of every field of the message other than the addresses. In "alphabet" cases the
+//! message contents are drawn from a small shared alphabet, so fully identical messages occur within a
+//! thread (runs of 2-4 equal messages, A,B,A patterns) and across threads; the identity of a message is
+//! only its position in the recorded per-thread sequence, never part of the message. In "unique" cases
+//! the text carries (thread, sequence number).
 //!  * single: one sender; the history may contain an explicit `Terminate` and warnings without
 //!    address (collector panics); the result must be exactly the model's.
 //!  * multi: 2-6 sender threads released by a barrier, random yields/spins between sends, all
@@ -57,6 +60,34 @@ struct Case {
     /// per message: (kind of pause, amount) before the send
     pauses: Vec<Vec<(u8, u32)>>,
     sender_on_main: bool,
+    unique: bool,
+}
+
+/// a message whose whole content comes from a small alphabet (so that equal messages are frequent)
+fn gen_small_msg(rng: &mut Rng, pool: &[&str], single: bool) -> LogThreadMsg {
+    let k = rng.below(100);
+    if single && k < 2 {
+        return LogThreadMsg::Terminate;
+    }
+    if k < 45 {
+        // address-less log: text A/B/C, mostly the same level and no source
+        let text = *rng.pick(&["A", "A", "B", "C"]);
+        let mut l = if rng.chance(4, 5) { LogMessage::new_info(text) } else { LogMessage::new_debug(text) };
+        if rng.chance(1, 6) {
+            l = l.source("src");
+        }
+        LogThreadMsg::Log(l)
+    } else if k < 72 {
+        let text = *rng.pick(&["X", "X", "Y"]);
+        let mut tid = Tid::new(*rng.pick(&["blk_1", "blk_1", "blk_2"]));
+        tid.address = rng.pick(pool).to_string();
+        LogThreadMsg::Log(LogMessage::new_debug(text).location(tid))
+    } else {
+        let mut w = CweWarning::new(*rng.pick(&["CWE476", "CWE476", "CWE416"]), "0.3", *rng.pick(&["(desc) W", "(desc) W", "(desc) V"]));
+        let n = if single && rng.chance(1, 80) { 0 } else { 1 + rng.below(2) };
+        w = w.addresses((0..n).map(|_| rng.pick(pool).to_string()).collect());
+        LogThreadMsg::Cwe(w)
+    }
 }
 
 fn gen_msg(rng: &mut Rng, pool: &[&str], thread: usize, seq: usize, single: bool) -> LogThreadMsg {
@@ -118,9 +149,22 @@ fn gen_case(rng: &mut Rng, single: bool) -> Case {
     let maxlen = if single { 20 } else { *rng.pick(&[2u64, 4, 8, 12]) };
     let mut threads = Vec::new();
     let mut pauses = Vec::new();
+    let unique = rng.chance(3, 10);
     for t in 0..nthreads {
         let n = rng.below(maxlen + 1) as usize;
-        threads.push((0..n).map(|s| gen_msg(rng, &pool, t, s, single)).collect::<Vec<_>>());
+        let mut msgs: Vec<LogThreadMsg> = Vec::new();
+        while msgs.len() < n {
+            let s = msgs.len();
+            let m = if unique { gen_msg(rng, &pool, t, s, single) } else { gen_small_msg(rng, &pool, single) };
+            // runs of 2-4 equal messages
+            let reps = if !unique && rng.chance(1, 4) { 2 + rng.below(3) as usize } else { 1 };
+            for _ in 0..reps {
+                if msgs.len() < n {
+                    msgs.push(m.clone());
+                }
+            }
+        }
+        threads.push(msgs);
         let style = rng.below(4);
         pauses.push(
             (0..n)
@@ -138,7 +182,7 @@ fn gen_case(rng: &mut Rng, single: bool) -> Case {
                 .collect::<Vec<_>>(),
         );
     }
-    Case { mode: if single { "single" } else { "multi" }, threads, pauses, sender_on_main: single && rng.chance(1, 2) }
+    Case { mode: if single { "single" } else { "multi" }, threads, pauses, sender_on_main: single && rng.chance(1, 2), unique }
 }
 
 fn pause(p: (u8, u32)) {
@@ -213,6 +257,20 @@ fn emit(out: &mut Out, c: &Case) {
     let line = json!({"mode": c.mode, "threads": threads, "raw": raw, "pauses": pauses, "main": c.sender_on_main, "impl": r});
     let total: usize = c.threads.iter().map(|t| t.len()).sum();
     out.count(&format!("mode:{}", c.mode));
+    out.count(if c.unique { "contents:unique" } else { "contents:small-alphabet" });
+    {
+        // identical messages: back-to-back within a thread, anywhere within a thread, across threads
+        let all: Vec<String> = threads.iter().flatten().map(|m| m.to_string()).collect();
+        let mut d = all.clone();
+        d.sort();
+        d.dedup();
+        if d.len() < all.len() {
+            out.count("case:with-identical-messages");
+        }
+        if threads.iter().any(|t| t.windows(2).any(|w| w[0] == w[1] && w[0]["t"] == "L" && w[0]["a"].is_null())) {
+            out.count("case:with-back-to-back-identical-general-logs");
+        }
+    }
     out.count(&format!("threads:{}", c.threads.len()));
     out.count_n("messages_sent", total as u64);
     let mut nontrivial = false;
@@ -241,7 +299,7 @@ fn emit(out: &mut Out, c: &Case) {
             }
             seen.push(t);
         }
-        if mixed {
+        if mixed && c.unique {
             out.count("multi:observed-interleaved-general-logs");
         }
         nontrivial = n > 0;
@@ -271,7 +329,8 @@ fn main() {
         "real LogThread + real std::thread senders; single: one sender, 0-20 messages (3% explicit Terminate, rare \
          address-less warning); multi: 2-6 senders x 0-12 messages released by a barrier with random \
          yield/spin/sleep pauses, all joined before collect(); 1-5 addresses per case so that keys collide within \
-         and across threads; non-trivial = at least one message returned; distinct by the sent histories",
+         and across threads; 70% of the cases draw message contents from a small alphabet with runs of 2-4 equal \
+         messages (identical messages within and across threads), plus 8 directed histories ([A,A], [A,A,A,B,A], ...); non-trivial = at least one message returned; distinct by the sent histories",
     );
     if let Some(lines) = args.replay_lines() {
         for line in lines {
@@ -281,7 +340,7 @@ fn main() {
             let pauses: Vec<Vec<(u8, u32)>> = serde_json::from_value(v["pauses"].clone())
                 .unwrap_or_else(|_| threads.iter().map(|t| vec![(0, 0); t.len()]).collect());
             let mode = if v["mode"].as_str() == Some("single") { "single" } else { "multi" };
-            let c = Case { mode, threads, pauses, sender_on_main: v["main"].as_bool().unwrap_or(false) };
+            let c = Case { mode, threads, pauses, sender_on_main: v["main"].as_bool().unwrap_or(false), unique: false };
             emit(&mut out, &c);
         }
         out.finish();
@@ -290,6 +349,34 @@ fn main() {
     let mut rng = Rng::new(args.seed);
     let n_single = args.num("single", 2500, 60000);
     let n_multi = args.num("multi", 3500, 100000);
+    // directed, always-run histories with identical messages
+    {
+        let a = || LogThreadMsg::Log(LogMessage::new_info("A"));
+        let b = || LogThreadMsg::Log(LogMessage::new_info("B"));
+        let x = |addr: &str| {
+            let mut tid = Tid::new("blk_1");
+            tid.address = addr.to_string();
+            LogThreadMsg::Log(LogMessage::new_debug("X").location(tid))
+        };
+        let w = |addr: &str| LogThreadMsg::Cwe(CweWarning::new("CWE476", "0.3", "(desc) W").addresses(vec![addr.to_string()]));
+        let directed: Vec<Vec<Vec<LogThreadMsg>>> = vec![
+            vec![vec![a(), a()]],
+            vec![vec![a(), a(), a(), b(), a()]],
+            vec![vec![a(), b(), a()]],
+            vec![vec![x("10"), x("10")]],
+            vec![vec![x("10"), a(), a(), x("10"), w("10"), w("10"), a()]],
+            vec![vec![a(), a()], vec![a(), a()]],
+            vec![vec![a(), b(), a()], vec![a(), a(), b()], vec![b(), b()]],
+            vec![vec![x("10"), x("10")], vec![x("10")], vec![w("9"), w("9")], vec![w("9")]],
+        ];
+        for threads in directed {
+            let pauses = threads.iter().map(|t| vec![(0u8, 0u32); t.len()]).collect();
+            let single = threads.len() == 1;
+            let c = Case { mode: if single { "single" } else { "multi" }, threads, pauses, sender_on_main: false, unique: false };
+            out.count("directed");
+            emit(&mut out, &c);
+        }
+    }
     for _ in 0..n_single {
         let c = gen_case(&mut rng, true);
         emit(&mut out, &c);
